@@ -15,14 +15,17 @@ TRUSTED = [
     "that cannot merge); tied on every run by hx_asi --mode lex against the real Lexer",
     "Model/Literal.v is a hand model of number.rs for integer literals (i64::from_str_radix / parse::<i64> as positional "
     "value with overflow above i64::MAX); tied by hx_asi --mode lit; float literals are not modelled",
-    "the PARSER half of the property (what the parser makes of the token stream: redundant parentheses / Grouping nodes, "
-    "`;;`, statement boundaries) carries no theorem: it is explored by the variant-vs-original runs only",
+    "the PARSER half of the property (what the parser makes of the token stream: Grouping nodes, `;;`, statement "
+    "boundaries) carries one theorem only -- the is_expression_start list, regenerated from atom.rs, covers every kind "
+    "primary()/unary() accept except `~` -- the rest is explored by the variant-vs-original runs; value_block_yields in "
+    "Model/ExprStart.v is a hand reading of block_expression, tied by the if-expression variants",
     "run behaviour is compared as (outcome class, captured output, final value) at -O0 and -O2 under an instruction budget; "
     "for rejected programs only the fact of rejection is compared (messages contain positions)",
 ]
 IMPORTS = "From Aelys Require Import Extracted.AsiTokens Model.Asi Model.Literal Model.AsiObs."
 
-KNOWN_CLASS = {   # repaired root causes the corpus pairs guard against (regression cases)
+KNOWN_CLASS = {
+    "tilde-at-block-value": "the value of an if-expression branch starts with the prefix operator `~`, which is_expression_start does not list (KF-C15-3)",   # repaired root causes the corpus pairs guard against (regression cases)
     "comment-line-before-else": "a `//` comment on a line of its own between `}` and an `else` that starts the next line",
     "newline-separator-inside-parens": "newline-separated statements of a block that sits inside ( or [ (lambda body passed as an argument or wrapped in parentheses)",
 }
@@ -122,8 +125,10 @@ def run(ctx):
     ctx.cov["trusted_base"] = TRUSTED
     ctx.assumptions = ["the piece-level model of the lexer is the code: contract tie on every run",
                        "the theorems cover the lexer's decisions and integer literal values; the parser's use of the stream is explored, not proved"]
-    ctx.cov["refuted_lemmas"] = []   # both former refutations were repaired in /repo (33a78fa, d14529d) and are now theorems
-    proved = ctx.prove("C15", extracted=["AsiTokens"])
+    # the two former refutations were repaired in /repo (33a78fa, d14529d) and are theorems now; one is open:
+    ctx.cov["refuted_lemmas"] = ["expression_start_complete for `~` (witness: `if c { ~x } else { y }` yields null, "
+                                 "`if c { (~x) } else { y }` the value) -> C15_tilde_value_block_refuted"]
+    proved = ctx.prove("C15", extracted=["AsiTokens", "ParserSets"])
     if ctx.tier == "thorough" and proved:
         ctx.coqchk("C15")
     ok, out = vlib.coq_make(["Base/CaseCheck.vo", "Model/AsiObs.vo"])
@@ -235,11 +240,14 @@ def run(ctx):
     if rc != 0:
         ctx.violation("c15:harness-crash:var", "hx_asi --mode var crashed", {"tail": out[-2000:]})
         return
-    fam_hist, cls_hist = {}, {}
+    fam_hist, cls_hist, positions = {}, {}, {}
     nviol = {"known": 0, "new": 0}
     nvar = 0
     for line in out.split("\n"):
         p = line.split("\t")
+        if len(p) == 3 and p[0] == "D":
+            positions[p[1]] = int(p[2])
+            continue
         if len(p) != 12 or p[0] != "V":
             continue
         nvar += 1
@@ -260,7 +268,11 @@ def run(ctx):
         # no known class is left: KF-C15-1 and KF-C15-2 are repaired, any mismatch is a violation;
         # the renderer's flags only say where to look
         sig = f"c15:variant-differs:{fam}"
-        if fam == "Comment" and fl["comment_before_else"] == "1" and cb != "compile-error" and cv == "compile-error":
+        if fam == "Parens" and int(fl.get("tilde_tail", "0")) > 0:
+            # open finding KF-C15-3, decidable: the ORIGINAL text has a value block whose value starts with `~`
+            # (it yields null there) and the variant differs only by redundant parentheses
+            sig = "c15:tilde-at-block-value:generated"
+        elif fam == "Comment" and fl["comment_before_else"] == "1" and cb != "compile-error" and cv == "compile-error":
             sig += ":comment-line-before-else"
         elif (fam == "Semi" and bsep > 0 and cb == "compile-error" and cv != "compile-error") or \
              (fam == "Parens" and vsep > bsep and cb != "compile-error" and cv == "compile-error"):
@@ -269,6 +281,12 @@ def run(ctx):
         nviol[r] += 1
     total += nvar
     dist["variant_runs_by_family"] = fam_hist
+    # how often each family was applied in each syntactic position it can be applied in; a position the
+    # generator never reaches is a hole in the search and is reported
+    ctx.cov["position_distribution"] = positions
+    missing = sorted(k for k, v in positions.items() if v == 0)
+    if missing or not positions:
+        ctx.broken.append("generator coverage: transformation positions never reached: " + (", ".join(missing) or "(no distribution reported)"))
     dist["variant_outcomes (base[/variant])"] = cls_hist
     ctx.cov["variant_mismatches"] = nviol
     ctx.cov["evaluations"] = total
